@@ -7,6 +7,12 @@ package c02
 //   lib: Mlrmap.Flatten / CopyUnflattened called directly (bulk: 10^6..10^8 documents)
 //   cli: whole invocations  json -> fmt -> json  for {csv,dkvp,xtab,pprint} x {".", ":", "__"},
 //        implicit auto-flatten/unflatten pair == explicit flatten/unflatten verbs
+//        == their -f forms when every field of the record is listed
+//
+// Key alphabets: {a,b,1,2} (letters and canonical indices) and, in the look-*
+// spaces, every lexical lookalike of an index (look.go): "01", "+1", "0x1",
+// "1.0", " 1", fullwidth digits, ...: keys on which string equality with
+// strconv.Itoa(i) and a number parser disagree.
 //
 // Reference flattener/unflattener written from docs/src/flatten-unflatten.md:
 // key spreading with 1-up array indices; unflatten splits on the separator,
@@ -284,11 +290,27 @@ var allLeaves = []leafKind{
 type docSpace struct {
 	name    string
 	keys    []string
+	topKeys []string // record-level keys; nil: the same as keys
 	leaves  []leafKind
 	maxMap  int
 	maxArr  int
 	depth   int // container levels below the record
 	nLeaves []int
+
+	klCache map[int][][]string
+}
+
+// keyListsOf: keyLists(sp.keys, n), computed once per space.
+func (sp *docSpace) keyListsOf(n int) [][]string {
+	if kl, ok := sp.klCache[n]; ok {
+		return kl
+	}
+	if sp.klCache == nil {
+		sp.klCache = map[int][][]string{}
+	}
+	kl := keyLists(sp.keys, n)
+	sp.klCache[n] = kl
+	return kl
 }
 
 // keyLists: every ordered selection of n distinct keys.
@@ -325,7 +347,7 @@ func (sp *docSpace) genValues(L, d int, emit func(*jval)) {
 		return
 	}
 	for n := 1; n <= sp.maxMap && n <= L; n++ {
-		for _, kl := range keyLists(sp.keys, n) {
+		for _, kl := range sp.keyListsOf(n) {
 			sp.genSeq(n, L, d-1, func(vals []*jval) {
 				m := jmap()
 				m.keys = kl
@@ -369,9 +391,13 @@ func (sp *docSpace) genSeq(n, L, d int, emit func([]*jval)) {
 // count of the first field, first field's value) is the sharding unit: mine is
 // asked once per prefix.
 func (sp *docSpace) forEachDoc(mine func() bool, emit func(doc *jval)) {
+	top := sp.topKeys
+	if top == nil {
+		top = sp.keys
+	}
 	for _, L := range sp.nLeaves {
-		for n := 1; n <= sp.maxMap && n <= L; n++ {
-			for _, kl := range keyLists(sp.keys, n) {
+		for n := 1; n <= sp.maxMap && n <= L && n <= len(top); n++ {
+			for _, kl := range keyLists(top, n) {
 				for l1 := 1; l1 <= L-(n-1); l1++ {
 					sp.genValues(l1, sp.depth, func(v1 *jval) {
 						if !mine() {
@@ -421,6 +447,44 @@ func libSpaces(quick bool) []docSpace {
 			docSpace{name: "3leaves-keys{a,1,2}-leaves{x,\"\",{},[]}", keys: keys3, leaves: leaves4, maxMap: 3, maxArr: 2, depth: 2, nLeaves: []int{3}},
 			docSpace{name: "4leaves-keys{a,1,2}-leaves{x,[]}-maps<=2", keys: keys3, leaves: leaves2, maxMap: 2, maxArr: 2, depth: 2, nLeaves: []int{4}},
 			docSpace{name: "5leaves-keys{1,2}-leaves{x}-maps<=2", keys: []string{"1", "2"}, leaves: []leafKind{allLeaves[1]}, maxMap: 2, maxArr: 2, depth: 2, nLeaves: []int{5}},
+		)
+	}
+	return S
+}
+
+// lookSpaces: the key-spelling dimension (look.go). lib layer.
+func lookLibSpaces(quick bool) []docSpace {
+	look2 := lookKeys(2, true)
+	leafX := []leafKind{allLeaves[1]}
+	S := []docSpace{
+		{name: "look-1leaf-depth3-keys{14 spellings of 1,2; 0,-1,3,a}-at-every-level", keys: look2, leaves: leaves2, maxMap: 1, maxArr: 1, depth: 2, nLeaves: []int{1}},
+		{name: "look-2leaves-depth2-keys{14 spellings of 1,2; 0,-1,3,a}", keys: look2, topKeys: []string{"a"}, leaves: leaves2, maxMap: 2, maxArr: 2, depth: 1, nLeaves: []int{2}},
+		{name: "look-3leaves-depth2-maps<=3-keys{14 spellings of 1,2,3}", keys: lookKeys(3, false), topKeys: []string{"a"}, leaves: leafX, maxMap: 3, maxArr: 1, depth: 1, nLeaves: []int{3}},
+		{name: "sentinel-lookalike-leaves-keys{a,1}", keys: []string{"a", "1"}, leaves: append(append([]leafKind(nil), leaves3...), sentinelLookalikes...), maxMap: 2, maxArr: 2, depth: 2, nLeaves: []int{1, 2}},
+	}
+	if quick {
+		S = append(S, docSpace{name: "look-2leaves-depth3-keys{canonical,leading-zero,plus-sign of 1,2; a}", keys: lookKeysOf(2, 0, 1, 2), topKeys: []string{"a"}, leaves: leaves2, maxMap: 2, maxArr: 2, depth: 2, nLeaves: []int{2}})
+	} else {
+		S = append(S, docSpace{name: "look-2leaves-depth3-keys{14 spellings of 1,2; 0,-1,3,a}", keys: look2, topKeys: []string{"a"}, leaves: leaves2, maxMap: 2, maxArr: 2, depth: 2, nLeaves: []int{2}})
+	}
+	return S
+}
+
+func lookCliSpaces(quick bool) []docSpace {
+	look2 := lookKeys(2, true)
+	leafX := []leafKind{allLeaves[1]}
+	S := []docSpace{
+		{name: "cli-look-2leaves-depth2-keys{14 spellings of 1,2; 0,-1,3,a}", keys: look2, topKeys: []string{"a"}, leaves: leaves2, maxMap: 2, maxArr: 2, depth: 1, nLeaves: []int{2}},
+		{name: "cli-sentinel-lookalike-leaves-depth2", keys: []string{"a"}, leaves: append(append([]leafKind(nil), leaves3...), sentinelLookalikes...), maxMap: 1, maxArr: 2, depth: 1, nLeaves: []int{1, 2}},
+	}
+	if quick {
+		S = append(S, docSpace{name: "cli-look-1leaf-depth3-keys{14 spellings of 1,2; 0,-1,3,a}-below-a", keys: look2, topKeys: []string{"a"}, leaves: leaves2, maxMap: 1, maxArr: 1, depth: 2, nLeaves: []int{1}})
+	} else {
+		S = append(S,
+			// record-level keys: a, every spelling of 1, and 0, -1 (the lib layer has all 32 at the record level)
+			docSpace{name: "cli-look-1leaf-depth3-keys{14 spellings of 1,2; 0,-1,3,a}-below-{a; 14 spellings of 1; 0,-1}", keys: look2, topKeys: append(append([]string{"a"}, spellingsOf(1)...), "0", "-1"), leaves: leaves2, maxMap: 1, maxArr: 1, depth: 2, nLeaves: []int{1}},
+			// 3-key maps: one spelling per reader family (Itoa, Atoi x2, ParseInt base 0, ParseFloat, Sscan); the lib layer has all 14
+			docSpace{name: "cli-look-3leaves-depth2-maps<=3-keys{canonical,leading-zero,plus-sign,hex-prefix,zero-fraction,leading-blank of 1,2,3}", keys: lookKeysOf(3, 0, 1, 2, 3, 7, 10)[:18], topKeys: []string{"a"}, leaves: leafX, maxMap: 3, maxArr: 1, depth: 1, nLeaves: []int{3}},
 		)
 	}
 	return S
@@ -538,12 +602,29 @@ func expectation(w *vf.Worker, doc *jval, sep string) (flat []flatField, want *j
 	if !sameShape(want, doc) {
 		w.Broken("reference model: unflatten(flatten(d)) != d without an array-like map: d=%s sep=%q ref=%s", doc.String(), sep, want.String())
 	}
+	if lookalikeSeq(doc, true, nil) {
+		return flat, want, "identity-lookalike-index-keys"
+	}
 	return flat, want, "identity"
 }
 
 var libClassCounts = map[string]int64{}
+var libLookCounts = make([]int64, len(lookFeatures))
+var libSentinelCounts = make([]int64, len(sentinelLookalikes))
 
 func flushLibCounts(w *vf.Worker) {
+	for f, n := range libLookCounts {
+		if n > 0 {
+			w.Count("lib-lookalike-key:"+lookFeatures[f], n)
+			libLookCounts[f] = 0
+		}
+	}
+	for i, n := range libSentinelCounts {
+		if n > 0 {
+			w.Count("lib-sentinel-lookalike-leaf:"+sentinelLookalikes[i].name, n)
+			libSentinelCounts[i] = 0
+		}
+	}
 	for k, v := range libClassCounts {
 		w.Count("lib-class:"+k, v)
 		delete(libClassCounts, k)
@@ -572,6 +653,10 @@ func libOne(w *vf.Worker, doc *jval, size int) {
 			libClassCounts["docs-in-guard"]++
 		}
 		libClassCounts[class]++
+		if want != nil {
+			lookalikeSeq(doc, true, func(f int) { libLookCounts[f]++ })
+			sentinelLeaves(doc, func(i int) { libSentinelCounts[i]++ })
+		}
 		rec := toRecord(doc)
 		var got *mlrval.Mlrmap
 		var gotFlat []flatField
@@ -623,13 +708,22 @@ func libOne(w *vf.Worker, doc *jval, size int) {
 type nestFmt struct {
 	name    string
 	in, out []string
+	dom     func(stream) string // representable-domain predicate of formats.go, applied to the flattened record
 }
 
 var nestFmts = []nestFmt{
-	{"csv", []string{"--icsv"}, []string{"--ocsv"}},
-	{"dkvp", []string{"--idkvp"}, []string{"--odkvp"}},
-	{"xtab", []string{"--ixtab"}, []string{"--oxtab"}},
-	{"pprint", []string{"--ipprint"}, []string{"--opprint"}},
+	{"csv", []string{"--icsv"}, []string{"--ocsv"}, domCSV},
+	{"dkvp", []string{"--idkvp"}, []string{"--odkvp"}, domDKVP},
+	{"xtab", []string{"--ixtab"}, []string{"--oxtab"}, domXTAB},
+	{"pprint", []string{"--ipprint"}, []string{"--opprint"}, domPPRINT},
+}
+
+func flatStream(flat []flatField) stream {
+	r := make(rec, len(flat))
+	for i, f := range flat {
+		r[i] = kv{f.k, f.v}
+	}
+	return stream{r}
 }
 
 func mlrRun(w *vf.Worker, args []string, stdin string) vf.MlrResult {
@@ -648,13 +742,18 @@ func cat(parts ...[]string) []string {
 }
 
 func cliOne(w *vf.Worker, doc *jval, size int, allVerbFmts bool) {
+	fLaw := true // the -f list is comma-separated: a field name with a comma cannot be listed
+	for _, k := range doc.keys {
+		if strings.Contains(k, ",") {
+			fLaw = false
+		}
+	}
 	docText := doc.String() + "\n"
 	inGuardAny := false
 	for _, sep := range seps {
 		flat, want, class := expectation(w, doc, sep)
 		w.Count("cli-class:"+class, 1)
 		w.Count("cli-sep:"+sep, 1)
-		_ = flat
 		key := fmt.Sprintf(":%02d:sep=%s:%s", size, sep, doc.String())
 		// V3: the verbs in one process, JSON in and out
 		a3 := []string{"--json", "flatten", "-s", sep, "then", "unflatten", "-s", sep}
@@ -672,8 +771,41 @@ func cliOne(w *vf.Worker, doc *jval, size int, allVerbFmts bool) {
 					map[string]any{"args": a3, "stdin": docText})
 			}
 		}
+		if want != nil {
+			lookalikeSeq(doc, true, func(f int) { w.Count("cli-lookalike-key:"+lookFeatures[f], 1) })
+			sentinelLeaves(doc, func(i int) { w.Count("cli-sentinel-lookalike-leaf:"+sentinelLookalikes[i].name, 1) })
+		}
+		// V4: the -f forms of both verbs with every field of the record listed
+		// ("Comma-separated list of field names to (un)flatten (default all)")
+		if want != nil && fLaw {
+			names := strings.Join(doc.keys, ",")
+			a4 := []string{"--json", "flatten", "-f", names, "-s", sep, "then", "unflatten", "-f", names, "-s", sep}
+			r4 := mlrRun(w, a4, docText)
+			shape4 := ""
+			if okRes(r4) {
+				if vs, err := parseJSONStream(r4.Stdout); err == nil && len(vs) == 1 {
+					shape4 = shapeOf(vs[0])
+				}
+			}
+			w.Count("cli-f-law", 1)
+			if shape4 != shapeOf(want) {
+				w.Violation("verbs-f["+class+"]"+key, fmt.Sprintf("%s on %s gives %s (exit %d %s), expected %s (%s; every field is listed, so -f selects all)", cmdline(a4), doc.String(), brief(r4.Stdout), r4.Exit, brief(r4.Stderr), shapeOf(want), class),
+					map[string]any{"args": a4, "stdin": docText})
+			}
+		}
+		flatS := flatStream(flat)
 		for fi, nf := range nestFmts {
 			w.Count("cli-format:"+nf.name, 1)
+			want := want
+			if want != nil {
+				if why := nf.dom(flatS); why != "" {
+					// the flattened record is not representable in this format (e.g. a blank in an XTAB/PPRINT key)
+					w.Count("cli-format-domain-out:"+nf.name+":"+why, 1)
+					want = nil
+				} else {
+					w.Count("cli-format-domain-in:"+nf.name, 1)
+				}
+			}
 			a1 := cat([]string{"--ijson"}, nf.out, []string{"--flatsep", sep, "cat"})
 			r1 := mlrRun(w, a1, docText)
 			if !okRes(r1) {
@@ -768,6 +900,7 @@ func nestWorker(w *vf.Worker) {
 	}
 	// cli layer first (the binding pass), then the bulk lib layer
 	spaces := append(cliSpaces(quick), guardSpace())
+	spaces = append(spaces, lookCliSpaces(quick)...)
 	for _, sp := range spaces {
 		sp := sp
 		n := 0
@@ -778,7 +911,7 @@ func nestWorker(w *vf.Worker) {
 		})
 		w.Count("cli-space:"+sp.name, int64(n))
 	}
-	for _, sp := range libSpaces(quick) {
+	for _, sp := range append(libSpaces(quick), lookLibSpaces(quick)...) {
 		sp := sp
 		n := 0
 		sp.forEachDoc(mine, func(doc *jval) {
